@@ -5,9 +5,13 @@
 From KB Require Import Base.Cases Model.Lockset Model.C19Cases Proofs.Lockset Proofs.C19Cases.
 Local Open Scope N_scope.
 
-(* the full statement: no execution of the node has a data race (traces of the real program) *)
-Definition C19_full_statement (program_traces : trace -> Prop) : Prop :=
-  forall tr, program_traces tr -> ~ race tr.
+(* There is no theorem "no execution of the real node has a data race": the traces of the real program are not a
+   Coq object.  What is proved is about traces that CONFORM to a table; that the real program's executions conform
+   to the regenerated table is the translator's claim (trusted; props/C19.json, gaps).  The instantiation to the
+   regenerated table is the generated theorem
+       Gen.AccessesOk.C19_repo_no_race : forall tr, wf tr -> conforms accesses tr -> ~ race tr
+   (rebuilt from /repo in the gen step of every check, next to accesses_ok; it cannot live in this file because
+   the table does not exist until the translator has run). *)
 
 (* for every well-formed trace that conforms to an access table T (every access is an instance of one
    of T's sites and holds that site's locks; constructor-phase and confined accesses are ordered as the
@@ -36,6 +40,39 @@ Theorem C19_oracle_sound : forall t n f l,
 Proof. exact c19_oracle_sound. Qed.
 Print Assumptions C19_oracle_sound.
 
+(* the check spelled out: a table flags nothing iff no shared location has a conflicting pair of run-phase sites
+   without a common lock held exclusively by one of them.  The translator's rules (a field access, an element
+   write, a method of an opaque library object, `*p = T{...}` as a write of every field, a returned field-held
+   slice as an unlocked write) only decide which sites with which kind / locks / phase are in the table; every
+   site is one of the four kinds below, so this theorem covers them all. *)
+Theorem C19_no_flagged_iff_no_unprotected_pair : forall t,
+  flagged t = [] <->
+  forall l, In l t -> l_class l = CShared ->
+    forall s1 s2, In s1 (l_sites l) -> In s2 (l_sites l) ->
+      s_phase s1 = PRun -> s_phase s2 = PRun -> kinds_conflict (s_kind s1) (s_kind s2) = true ->
+      exists lk m1 m2, In (lk, m1) (s_locks s1) /\ In (lk, m2) (s_locks s2) /\ excl m1 m2 = true.
+Proof. exact no_flagged_iff_no_unprotected_pair. Qed.
+Print Assumptions C19_no_flagged_iff_no_unprotected_pair.
+
+(* oracle soundness in the standard form.  NOTE: for location cases the oracle IS check_location, i.e. the same
+   function validity is defined by, so C19_oracle_sound_valid holds by definition and says nothing beyond it; the
+   check hypothesis (agreement with the translator's own Go implementation of the rule) is not even needed.  The
+   judge that is independent of the table is the Go race detector in the driver's soak, outside Coq.
+   Then: decidable validity, and what validity buys — no conforming trace races on a valid location. *)
+Theorem C19_oracle_sound_valid : forall t c, c19_valid t c -> c19_check t c = true -> c19_oracle t c = None.
+Proof. exact c19_oracle_sound_valid. Qed.
+Print Assumptions C19_oracle_sound_valid.
+Theorem C19_validb_sound : forall t c, c19_validb t c = true -> c19_valid t c.
+Proof. exact c19_validb_sound. Qed.
+Print Assumptions C19_validb_sound.
+Theorem C19_covered_scope : forall t c, c19_check_covered t c = true -> c19_oracle t c = None -> c19_valid t c.
+Proof. exact c19_covered_scope. Qed.
+Print Assumptions C19_covered_scope.
+Theorem C19_valid_no_race : forall t tr o n f,
+  wf tr -> conforms t tr -> c19_valid t (KLoc n f) -> ~ race_at tr (o, n).
+Proof. exact c19_valid_no_race. Qed.
+Print Assumptions C19_valid_no_race.
+
 (* ---------- non-vacuity ---------- *)
 
 Definition ex_f : str := [102].      (* field "f" *)
@@ -57,6 +94,39 @@ Proof.
   apply t_trans with 2%nat; [apply t_step; eapply hb_po; [| reflexivity | reflexivity]; auto|].
   apply t_trans with 3%nat; [apply t_step; eapply hb_sync with (m1 := MW) (m2 := MR); [| reflexivity | reflexivity | reflexivity]; auto|].
   apply t_step; eapply hb_po; [| reflexivity | reflexivity]; auto.
+Qed.
+
+(* the hypotheses of the soundness theorems are satisfiable together: this trace is well-formed, conforms to the
+   table (position 1 is an instance of site 0 holding mu exclusively, position 4 of site 1 holding it shared), and
+   therefore has no race *)
+Example C19_ex_wf : wf ex_trace.
+Proof.
+  intros k t2 l m2 Hk t1 m1 Hne Hex (a & Ha & Hacq & Hno).
+  destruct k as [|[|[|[|[|[|k]]]]]]; cbn in Hk; try discriminate; try (destruct k; discriminate).
+  - lia.
+  - injection Hk; intros; subst.
+    destruct a as [|[|[|a]]]; cbn in Hacq; try discriminate; try lia.
+    injection Hacq; intros; subst.
+    apply (Hno 2%nat); [lia|reflexivity].
+Qed.
+Example C19_ex_conforms : conforms ex_table ex_trace.
+Proof.
+  intros i th e a Hi Ha.
+  destruct i as [|[|[|[|[|[|i]]]]]]; cbn in Hi; try (destruct i; discriminate);
+    injection Hi as <- <-; cbn in Ha; try discriminate; injection Ha as <-.
+  - eexists; eexists. split; [reflexivity|]. split; [reflexivity|]. split; [reflexivity|]. split.
+    + intros lk m [H|[]]. injection H as <- <-. exists MW. split; [reflexivity|].
+      exists 0%nat. split; [lia|]. split; [reflexivity|]. intros b Hb. lia.
+    + intros [H|H]; discriminate.
+  - eexists; eexists. split; [reflexivity|]. split; [reflexivity|]. split; [split; reflexivity|]. split.
+    + intros lk m [H|[]]. injection H as <- <-. exists MR. split; [reflexivity|].
+      exists 3%nat. split; [lia|]. split; [reflexivity|]. intros b Hb. assert (b = 3%nat) by lia. lia.
+    + intros [H|H]; discriminate.
+Qed.
+Example C19_hyps_inhabited : wf ex_trace /\ conforms ex_table ex_trace /\ ~ race ex_trace.
+Proof.
+  split; [exact C19_ex_wf|]. split; [exact C19_ex_conforms|].
+  apply (C19_lockset_sound ex_table ex_trace C19_ex_wf C19_ex_conforms). vm_compute. reflexivity.
 Qed.
 
 (* ... and the discipline is needed: without the lock the same accesses are a race in the model *)
@@ -86,3 +156,8 @@ Example C19_write_under_rlock_flagged :
   check_location {| l_name := ex_f; l_class := CShared;
                     l_sites := [ {| s_id := 0; s_kind := KWr; s_locks := [(ex_mu, MR)]; s_phase := PRun |} ] |} = false.
 Proof. vm_compute. reflexivity. Qed.
+
+Example C19_validb_examples :
+  c19_validb ex_table (KLoc ex_f false) = true /\ c19_check_covered ex_table (KLoc ex_f false) = true /\
+  c19_check_covered ex_table (KLoc ex_f true) = false /\ c19_validb ex_table (KLoc ex_mu false) = false.
+Proof. vm_compute. repeat split; reflexivity. Qed.
